@@ -97,6 +97,9 @@ def gen_rbf_params(rng, n):
                         scale=float(rng.choice([0.3, 1.0, 3.0]))))
         if name == 'thin_plate' and offset is not None and offset == 0 and out[-1]['hit_center']:
             out[-1]['hit_center'] = False    # r = 0 with offset 0 is outside the domain of r^2 log r
+    # one large batch (many rows x many centres): every row must be transformed
+    out.append(dict(test='rbf', rbf='gaussian', seed=int(rng.integers(1 << 30)), ns=2, nu=1, k=40, rows=3000, shape=0.5,
+                    offset=None, ep=False, hit_center=False, scale=1.0))
     return out
 
 
